@@ -1,5 +1,10 @@
 import GeoVerif.Drv.Util
 import GeoVerif.Drv.C06
+import GeoVerif.Drv.C20
+import GeoVerif.Drv.C12
+import GeoVerif.Drv.C11
+import GeoVerif.Drv.C16
+import GeoVerif.Drv.C15
 import GeoVerif.Drv.C14
 import GeoVerif.Drv.C10
 import GeoVerif.Drv.C18
@@ -34,6 +39,11 @@ def handle (line : String) : String :=
     | ["fc", op] => handleFC op args
     | ["hull", op] => handleHull op args
     | ["gj", op] => handleGJ op args
+    | ["ob", op] => handleOb op args
+    | ["sm", op] => handleSM op args
+    | ["gh", op] => handleGH op args
+    | ["fl", op] => handleFL op args
+    | ["io", op] => handleIO op args
     | _ => "bad-op"
 
 partial def loop (i o : IO.FS.Stream) : IO Unit := do
